@@ -45,4 +45,57 @@ theorem hasMember_false_iff (k : Bytes) (ms : List (Bytes × JVal)) :
 theorem getElem?_append_new (xs : List JVal) (v : JVal) : (xs ++ [v])[xs.length]? = some v := by
   simp
 
+theorem findMember_setMember (k : Bytes) (v' : JVal) : ∀ (ms : List (Bytes × JVal)) (m : Bytes × JVal),
+    findMember false k ms = some m → findMember false k (setMember k v' ms) = some (m.1, v')
+  | [], _, h => by simp [findMember] at h
+  | a :: r, m, h => by
+    simp only [findMember] at h
+    by_cases hk : keyEq false k a.1 = true
+    · simp only [hk, if_true, Option.some.injEq] at h
+      subst h
+      simp [setMember, findMember, hk]
+    · simp only [hk, Bool.false_eq_true, if_false] at h
+      simp [setMember, findMember, hk, findMember_setMember k v' r m h]
+
+/-- an operation through a borrowed pointer is seen through the same pointer afterwards -/
+theorem getAt_setAt (v' : JVal) : ∀ (p : List Step) (t c : JVal), getAt t p = .ok c → getAt (setAt t p v') p = .ok v'
+  | [], _, _, _ => by simp [setAt, getAt]
+  | s :: r, t, c, h => by
+    simp only [getAt] at h
+    cases hs : getStep t s with
+    | error e => simp [hs] at h
+    | ok c1 =>
+      simp only [hs] at h
+      have ih := getAt_setAt v' r c1 c h
+      cases s with
+      | key k =>
+        cases t with
+        | obj ms =>
+          simp only [getStep, getFromObject] at hs
+          cases hf : findMember false k ms with
+          | none => simp [hf] at hs
+          | some m =>
+            simp only [hf, Except.ok.injEq] at hs
+            have := findMember_setMember k (setAt c1 r v') ms m hf
+            simp [setAt, getAt, getStep, getFromObject, hf, hs, this, ih]
+        | null => simp [getStep, getFromObject] at hs
+        | bool b => simp [getStep, getFromObject] at hs
+        | num n => simp [getStep, getFromObject] at hs
+        | str x => simp [getStep, getFromObject] at hs
+        | arr xs => simp [getStep, getFromObject] at hs
+      | idx i =>
+        cases t with
+        | arr xs =>
+          simp only [getStep, getArrayElement] at hs
+          by_cases hi : i ≥ xs.length
+          · simp [hi] at hs
+          · have hlt : i < xs.length := by omega
+            simp only [hi, if_false, List.getElem?_eq_getElem hlt, Except.ok.injEq] at hs
+            simp [setAt, getAt, getStep, getArrayElement, hi, hlt, hs, ih]
+        | null => simp [getStep, getArrayElement] at hs
+        | bool b => simp [getStep, getArrayElement] at hs
+        | num n => simp [getStep, getArrayElement] at hs
+        | str x => simp [getStep, getArrayElement] at hs
+        | obj ms => simp [getStep, getArrayElement] at hs
+
 end AwsVerif.Proofs.C11
